@@ -444,6 +444,12 @@ func (ps *parser) primary() Expr {
 			return &BoolLit{false}
 		case "nil":
 			return &NilLit{}
+		case "forall", "exists":
+			// a quantifier as an operand (e.g. `A && forall i in ... :: P`): its body extends as far as possible
+			if ps.peek().kind == "id" {
+				ps.p--
+				return ps.expr()
+			}
 		}
 		if ps.isOp("(") {
 			ps.next()
